@@ -107,7 +107,7 @@ Proof.
     destruct IH as (Hr & Hs & Hq & He).
     assert (M : forall pv, held ls pv -> held (ls ++ [l]) pv)
       by (intros pv H; apply was_snoc; exact H).
-    destruct l as [p v ev | ps | | n | | | ]; cbn [step].
+    destruct l as [p v ev | ps | | n | | | | ids | ids]; cbn [step].
     + (* Update *)
       cbn [received sflight queue eflight].
       assert (Hnew : held (ls ++ [Update p v ev]) (p, v)).
@@ -175,6 +175,18 @@ Proof.
       * intros l pv H1. discriminate.
       * intros e H. apply M, Hq, H.
       * intros e [].
+    + (* Overflow *)
+      cbn [received sflight queue eflight]. repeat split.
+      * intros pv H. apply M, Hr, H.
+      * intros l pv H1 H2. apply M. eapply Hs; eassumption.
+      * intros e H. apply filter_In in H. apply M, Hq, H.
+      * intros e H. apply M, He, H.
+    + (* SendSelected *)
+      cbn [received sflight queue eflight]. repeat split.
+      * intros pv H. apply M, Hr, H.
+      * intros l pv H1 H2. apply M. eapply Hs; eassumption.
+      * intros e H. apply M, Hq, H.
+      * intros e H. apply filter_In in H. apply M, Hq, H.
 Qed.
 
 (* P1: every (point, value) the handler ever received was that point's value at some earlier
@@ -191,7 +203,7 @@ Lemma view_received_step s l :
   (forall p v, view s p = Some v -> In (p, v) (received s)) ->
   forall p v, view (step cap s l) p = Some v -> In (p, v) (received (step cap s l)).
 Proof.
-  intros IH p v. destruct l as [q w ev | ps | | n | | | ]; cbn [step].
+  intros IH p v. destruct l as [q w ev | ps | | n | | | | ids | ids]; cbn [step].
   - cbn [view received]. apply IH.
   - cbn [view received]. apply IH.
   - destruct (sflight s) as [l|]; [|apply IH]. cbn [view received]. intro H.
@@ -200,6 +212,8 @@ Proof.
   - cbn [view received]. intro H. apply see_in in H. apply in_or_app.
     destruct H as [H|H]; [left; apply IH; exact H | right; exact H].
   - destruct (eacked s); [cbn [view received]|]; apply IH.
+  - cbn [view received]. apply IH.
+  - cbn [view received]. apply IH.
   - cbn [view received]. apply IH.
 Qed.
 
@@ -226,10 +240,12 @@ Definition in_flight (d0 : point -> value) (ps : list point) (s : state) : Prop 
 Lemma in_flight_step d0 ps s l :
   keeps_snapshot l = true -> in_flight d0 ps s -> in_flight d0 ps (step cap s l).
 Proof.
-  intros K (Hd & Hs). destruct l as [q w ev | qs | | n | | | ]; try discriminate; cbn [step].
+  intros K (Hd & Hs). destruct l as [q w ev | qs | | n | | | | ids | ids]; try discriminate; cbn [step].
   - split; assumption.
   - split; assumption.
   - destruct (eacked s); split; assumption.
+  - split; assumption.
+  - split; assumption.
 Qed.
 
 Lemma in_flight_steps d0 ps : forall ls s,
@@ -251,7 +267,7 @@ Lemma settled_step d0 ps s l :
   quiet l = true -> settled d0 ps s -> settled d0 ps (step cap s l).
 Proof.
   intros Q (Hd & Hv & Hs).
-  destruct l as [q w ev | qs | | n | | | ]; try discriminate; cbn [step].
+  destruct l as [q w ev | qs | | n | | | | ids | ids]; try discriminate; cbn [step].
   - (* TakeSnapshot *)
     repeat split; cbn [db view sflight]; try assumption.
     intros l q v E Hin. inversion E; subst l. apply in_map_iff in Hin.
@@ -267,6 +283,8 @@ Proof.
   - (* Confirm *) destruct (eacked s); repeat split; assumption.
   - (* LoseConnection *)
     repeat split; cbn [db view sflight]; try assumption. intros l q v E. discriminate.
+  - (* Overflow *) repeat split; assumption.
+  - (* SendSelected *) repeat split; assumption.
 Qed.
 
 Lemma settled_steps d0 ps : forall ls s,
@@ -315,7 +333,7 @@ Definition inv2 (s : state) : Prop :=
 
 Lemma inv2_step s l : inv2 s -> inv2 (step cap s l).
 Proof.
-  intros (Hc & Ha & Hd). destruct l as [p v ev | ps | | n | | | ]; cbn [step].
+  intros (Hc & Ha & Hd). destruct l as [p v ev | ps | | n | | | | ids | ids]; cbn [step].
   - (* Update *)
     set (e0 := mkEvent (next_id s) p v).
     set (q := if ev then queue s ++ [e0] else queue s).
@@ -362,6 +380,15 @@ Proof.
       * right; left. apply filter_In. split; [exact X | rewrite Ex; reflexivity].
     + intro H; discriminate.
   - repeat split; cbn [created discarded queue delivered eacked eflight received]; try assumption.
+    intro H; discriminate.
+  - (* Overflow *)
+    repeat split; cbn [created discarded queue delivered eacked eflight received]; try assumption.
+    intros e H. destruct (Hc e H) as [X|[X|X]]; [left; apply in_or_app; left; exact X | | right; right; exact X].
+    destruct (id_in ids e) eqn:G.
+    + left. apply in_or_app. right. apply in_map. apply filter_In. split; [exact X | exact G].
+    + right; left. apply filter_In. split; [exact X | rewrite G; reflexivity].
+  - (* SendSelected *)
+    repeat split; cbn [created discarded queue delivered eacked eflight received]; try assumption.
     intro H; discriminate.
 Qed.
 
